@@ -10,6 +10,7 @@ import (
 	"strings"
 
 	"github.com/Oneledger/protocol/action"
+	"github.com/Oneledger/protocol/action/olvm"
 
 	"olsim/core"
 	"olsim/gen"
@@ -116,6 +117,51 @@ func reencodings(rng *rand.Rand, orig []byte) []mutant {
 		b = append(b, orig[i+len(`"memo":""`):]...)
 		addRaw("type-error-zero-value", b)
 	}
+	// surplus signature: the signature list itself is not signed; the required signatures stay in front
+	if base.Type != action.OLVM {
+		t := core.DecodeTx(orig)
+		if t != nil && len(t.Signatures) > 0 {
+			junk := make([]byte, 64)
+			rng.Read(junk)
+			extra := action.Signature{Signer: t.Signatures[0].Signer, Signed: junk}
+			if rng.Intn(2) == 0 {
+				st := core.NewEdAccount(1, "surplus-signer")
+				extra = action.Signature{Signer: st.Pub, Signed: st.Sign(t.RawBytes())}
+			}
+			t.Signatures = append(t.Signatures, extra)
+			if b := encodeSigned(t); b != nil {
+				out = append(out, mutant{Bytes: b, Label: kind + "/replay:surplus-signature"})
+			}
+		}
+	}
+	// OLVM: the memo is not covered by the Ethereum signature, it only has to parse to the nonce
+	if base.Type == action.OLVM && base.Memo != "" {
+		for _, m := range []string{"0" + base.Memo, "00" + base.Memo} {
+			t := core.DecodeTx(orig)
+			if t == nil {
+				break
+			}
+			t.Memo = m
+			if b := encodeSigned(t); b != nil && !bytes.Equal(b, orig) {
+				out = append(out, mutant{Bytes: b, Label: kind + "/replay:olvm-memo-leading-zero"})
+				break
+			}
+		}
+	}
+	// OLVM: the signer key field of the envelope is not what authenticates the transaction (the sender is
+	// recovered from the Ethereum signature)
+	if base.Type == action.OLVM {
+		if t := core.DecodeTx(orig); t != nil && len(t.Signatures) == 1 {
+			other := core.NewEthAccount(1, "envelope-signer")
+			if rng.Intn(2) == 0 {
+				other = core.NewEdAccount(1, "envelope-signer")
+			}
+			t.Signatures[0].Signer = other.Pub
+			if b := encodeSigned(t); b != nil && !bytes.Equal(b, orig) {
+				out = append(out, mutant{Bytes: b, Label: kind + "/replay:olvm-signer-field"})
+			}
+		}
+	}
 	// OLVM: the envelope's Signer is unused; the inner payload may be re-encoded as long as the fields agree
 	if base.Type == action.OLVM {
 		var inner map[string]json.RawMessage
@@ -155,11 +201,18 @@ func contentKey(b []byte) string {
 	if len(t.Signatures) == 0 {
 		return ""
 	}
-	k := string(t.RawBytes())
-	for _, sg := range t.Signatures {
-		k += "|" + string(sg.Signed)
+	if t.Type == action.OLVM {
+		// signed content = the Ethereum transaction fields (payload fields, fee) and the signature itself
+		in := &olvm.Transaction{}
+		if in.Unmarshal(t.Data) != nil {
+			return ""
+		}
+		j, _ := json.Marshal(in)
+		f, _ := json.Marshal(t.Fee)
+		return "O|" + string(j) + "|" + string(f) + "|" + string(t.Signatures[0].Signed)
 	}
-	return k
+	// signed content = type, payload, fee, memo (whoever else signed behind the required signers)
+	return "N|" + string(t.RawBytes())
 }
 
 type c05Oracle struct {
@@ -220,7 +273,8 @@ func (o *c05Oracle) AfterStep(e *core.Engine, idx int, st *core.Step, stepErr er
 			if r.Code == 0 {
 				o.okOrig++
 			}
-			if k := contentKey(ra.TxBytes[i]); k != "" {
+			if k := contentKey(ra.TxBytes[i]); k != "" && r.Code == 0 {
+				// executed = delivered with code 0 (a transaction that failed took no effect and may be sent again)
 				o.executed[k] = true
 			}
 		}
@@ -232,7 +286,7 @@ func (o *c05Oracle) AfterStep(e *core.Engine, idx int, st *core.Step, stepErr er
 			// removed the original's block): it is an ordinary block, the twin follows it
 			o.shadow.RawBlock(cb, *ra.Begin, ra.TxBytes)
 			for i := range ra.Txs {
-				if k := contentKey(ra.TxBytes[i]); k != "" {
+				if k := contentKey(ra.TxBytes[i]); k != "" && ra.Txs[i].Code == 0 {
 					o.executed[k] = true
 				}
 			}
@@ -258,8 +312,8 @@ func (o *c05Oracle) NonTrivial(e *core.Engine) bool {
 func init() {
 	Register(&ClusterProp{
 		Id: "C05",
-		RuleText: "each run: honest blocks (swarm subset of all generators) execute transactions; every 2-4 blocks the replayer picks transactions executed earlier (all kinds, successes and failures, same block age .. whole run) and resubmits them " +
-			"byte-identical and re-encoded with the signed content unchanged (key order, whitespace, trailing space, unknown extra field, shadowed duplicate key, \\u escape, key case, decoder type errors that leave the content intact, OLVM inner payload key order). Every resubmission goes through CheckTx on a probe node " +
+		RuleText: "each run: honest blocks (swarm subset of all generators) execute transactions; every 2-4 blocks the replayer picks transactions executed earlier (all kinds, delivered with code 0, same block age .. whole run) and resubmits them " +
+			"byte-identical and re-encoded with the signed content unchanged (key order, whitespace, trailing space, unknown extra field, shadowed duplicate key, \\u escape, key case, decoder type errors that leave the content intact, a surplus signature behind the required ones, OLVM memo with leading zeros, OLVM signer key field, OLVM inner payload key order). Every resubmission goes through CheckTx on a probe node " +
 			"and is delivered in a block of resubmissions only (byzantine proposer). Oracles: CheckTx code != 0; the resubmission block's app hash equals that of a twin that received the same BeginBlock and no transactions. " +
 			"Assumes the node's tx index is complete for every applied block. Non-trivial: >=3 resubmissions delivered and >=3 successful originals; distinct = distinct fingerprints; `inputs` = resubmissions delivered.",
 		MakeSetup: func(rng *rand.Rand, tier string, seed uint64) *Setup {
@@ -284,7 +338,11 @@ func init() {
 				var pool [][]byte
 				for _, a := range e.C.Ref().Tr.Attempts {
 					if a.Committed {
-						pool = append(pool, a.TxBytes...)
+						for i, tb := range a.TxBytes {
+							if i < len(a.Txs) && a.Txs[i].Code == 0 {
+								pool = append(pool, tb) // executed = delivered with code 0
+							}
+						}
 					}
 				}
 				if len(pool) == 0 {
